@@ -4,7 +4,7 @@ set -u
 P=$1; K=$2; shift 2
 CHECKS=${@:-$P}
 WT=/tmp/seed/$P
-OUT=$WT/out
+OUT=$WT/${SEED_OUT:-out}
 cd $WT || exit 3
 git checkout -q -- . 
 git apply $OUT/patch$K.diff || { echo "PATCH-DOES-NOT-APPLY"; exit 3; }
